@@ -48,10 +48,15 @@ func (r *vBReq) size() int64 {
 func (r *vBReq) MergeSplit(_ context.Context, max int, _ request.SizerType, other request.Request) ([]request.Request, error) {
 	all := append([]vPart{}, r.parts...)
 	if other != nil {
-		all = append(all, other.(*vBReq).parts...)
+		o := other.(*vBReq)
+		all = append(all, o.parts...)
+		o.parts = nil // mergeTo moves the other request's data into the receiver
 	}
+	// Like the real MergeSplit, the RECEIVER is mutated and returned as the LAST result (`res = append(res, req)`): after
+	// the call it holds whatever was not extracted into the earlier results.
 	if max == 0 {
-		return []request.Request{&vBReq{parts: all}}, nil
+		r.parts = all
+		return []request.Request{r}, nil
 	}
 	var res []request.Request
 	cur := &vBReq{}
@@ -64,7 +69,8 @@ func (r *vBReq) MergeSplit(_ context.Context, max int, _ request.SizerType, othe
 		cur.parts = append(cur.parts, p)
 		room -= p.n
 	}
-	res = append(res, cur)
+	r.parts = cur.parts
+	res = append(res, r)
 	return res, nil
 }
 
@@ -202,6 +208,10 @@ func TestVerifC04Batcher(t *testing.T) {
 				report()
 			}
 			steps := 1 + rnd.IntN(10)
+			itemsMode := c%3 == 1
+			if itemsMode {
+				out.Linef("stat items_mode 1")
+			}
 			id := 0
 			merged := false
 			for s := 0; s < steps; s++ {
@@ -211,7 +221,29 @@ func TestVerifC04Batcher(t *testing.T) {
 					var parts []vPart
 					var us []string
 					nu := 1 + rnd.IntN(4)
-					if rnd.IntN(8) == 0 {
+					parked := 0
+					qb.currentBatchMu.Lock()
+					if qb.currentBatch != nil {
+						parked = int(qb.currentBatch.req.(*vBReq).size())
+					}
+					qb.currentBatchMu.Unlock()
+					switch {
+					case itemsMode:
+						// items-sizer shape: every unit is one item; half of the time the merged total is an exact
+						// multiple of max_size (every chunk full, the receiver ends up as a FULL last chunk)
+						nu = 1 + rnd.IntN(2*int(max(maxSize, 3))+2)
+						if maxSize > 0 && rnd.IntN(2) == 0 {
+							k := 1 + rnd.IntN(3)
+							if t := k*int(maxSize) - parked; t > 0 {
+								nu = t
+							}
+						}
+						for u := 0; u < nu; u++ {
+							parts = append(parts, vPart{id, 1})
+							us = append(us, "1")
+						}
+						nu = 0
+					case rnd.IntN(8) == 0:
 						// a request without items: carried as one unit of size 0 (ItemsCount() == 0)
 						nu = 0
 						parts = append(parts, vPart{id, 0})
